@@ -241,6 +241,16 @@ class TeamServer:
             self.keys = RC.derive(md["aes_rand"])
             decoded = {"metadata": md}
             task = self.queue.pop(0) if self.queue else None
+            if task and len(task) > 3:
+                # the caller asked for a task whose encrypted form ends in a byte that text-oriented code treats specially
+                # (CR, LF, blank, tab, NUL): advance the epoch until the signature's last byte is one of them
+                epoch, cmd, data, edge = task
+                for e in range(epoch, epoch + 4096):
+                    if enc_task(e, cmd, data, *self.keys)[-1] in edge:
+                        epoch = e
+                        break
+                task = (epoch, cmd, data)
+            self.last_task = task
             payload = enc_task(*task, *self.keys) if task else b""
             decoded["task"] = task
             resp_body = T.server_encode(self.cfg["recover_steps"], payload, masks=list(self.masks))
